@@ -430,7 +430,7 @@ fn components(engine: &str) -> Value {
             "real": ["xs::store::Store (append, insert_frame, remove, gc worker) write path", "fjall journal / memtable flush / recovery (Store::new on every image)", "cacache write paths (mmap-sized and streaming) and integrity-checked reads", "tmpfs file system executing every operation for real"],
             "stubbed": ["durability: crash images are rebuilt from the recorded operation log (kill / power-loss / torn)", "crash instant (every log prefix)", "clock and ids (simulated)", "gc worker scheduling (one task per step)"]
         }),
-        "e4" => json!({
+        "e4" | "e20" => json!({
             "real": ["hyper http1 server connection + xs::api::handle (routing, all handlers)", "xs::store::Store incl. history threads and live tasks behind GET /", "cacache (streamed request bodies, POST/GET /cas)", "xs client-side ReadOptions::to_query_string for building queries"],
             "stubbed": ["transport: tokio::io::duplex pipes instead of sockets; request bytes fragmented, chunked, cut by disconnects", "HTTP client (hand-written request builder and response/chunk/NDJSON/SSE parser in the harness)", "clock and ids (simulated)", "history-thread scheduling (released until idle between client steps)"]
         }),
@@ -456,7 +456,7 @@ fn assumptions(engine: &str) -> Value {
             "cuts inside the creation of a brand-new store are not judged",
             "fjall background threads are waited for (log quiet for 30 ms), not scheduled"
         ]),
-        "e4" => json!([
+        "e4" | "e20" => json!([
             "sampling, not proof: verdict covers the request sequences explored",
             "one tokio step runs all server tasks to idle: interleavings between connection tasks are not explored (production uses a multi-threaded runtime)",
             "request/response pipes are >= 1 KiB (a smaller pipe makes hyper truncate an early 4xx when it closes a connection whose request body it has not read)",
